@@ -1178,5 +1178,8 @@ BENIGN = [
         {"file": T, "old": '        lhs = [f"ydot[IDX_{x.alias}]" for x in species]\n', "new": '        rhs = ["".join(parts) for parts in rhsparts]\n        lhs = [f"ydot[IDX_{x.alias}]" for x in species]\n'}]},
     {"name": "create-species-guard-clauses-set-lookup", "file": "naunet/component.py", "old": "        if species_name and species_name not in Species.known_pseudoelements():\n            return Species(species_name, **kwargs)\n\n        return None\n", "new": "        if not species_name:\n            return None\n        pseudo = frozenset(Species.known_pseudoelements())\n        if species_name in pseudo:\n            return None\n        return Species(species_name, **kwargs)\n"},
     {"name": "loss-loop-guarded-by-nonempty-list", "file": T, "old": "            for specidx in rspecidx:\n                rhs[specidx] += f\" - {rate_sym}[{rl}]*{rsym_mul}\"\n", "new": "            if rspecidx:\n                for specidx in rspecidx:\n                    rhs[specidx] += f\" - {rate_sym}[{rl}]*{rsym_mul}\"\n"},
+    {"name": "species-slots-from-position-table", "edits": [
+        {"file": T, "old": '        rhs = ["0.0"] * n_eqns\n', "new": '        position = {s: i for i, s in enumerate(species)}\n        rhs = ["0.0"] * n_eqns\n'},
+        {"file": T, "old": "            rspecidx = [species.index(r) for r in react.reactants]\n            pspecidx = [species.index(p) for p in react.products]\n", "new": "            rspecidx = [position[r] for r in react.reactants]\n            pspecidx = [position[p] for p in react.products]\n"}]},
     {"name": "template-reindent", "file": TEMPLATES["cvode"], "old": "    {% for eq in ode.fex -%}\n        {{ eq | stmwrap(80, 8) }}", "new": "    {% for eq in ode.fex -%}\n      {{ eq|stmwrap(80, 6) }}"},
 ]
